@@ -131,7 +131,7 @@ theorem uX_robs : revisedObs uX.net = revisedObs netWexact := rfl
 theorem uX_sigma : sigmaOf uX.net = sigmaOf netWexact := rfl
 
 theorem npX_rows : RowsOK (toProblem npX) :=
-  C01_pe_rowsOK netWexact npX uX pe_eq (by rw [uX_robs]; exact robs_noalias)
+  C01_pe_rowsOK netWexact npX uX pe_eq
 
 /-- `Σ⁻¹` at the index type of `npX` -/
 noncomputable def PcX : Matrix (Fin (toProblem npX).m) (Fin (toProblem npX).m) ℝ := PcR
@@ -212,7 +212,7 @@ theorem netWexact_zero (alg : Alg) (halg : alg = .chol ∨ alg = .gso) :
   obtain ⟨a, ha⟩ := npX_answers alg halg
   refine ⟨a, ha, ?_⟩
   exact exact_network_solution_zero netWexact npX uX pe_eq (by rw [uX_robs, uX_sigma]; exact robs_exact)
-    (by rw [uX_robs]; exact robs_noalias) (by show (2 : ℝ) ≠ 0; norm_num) PcX npX_sigma_inv npX_reg
+    (by show (2 : ℝ) ≠ 0; norm_num) PcX npX_sigma_inv npX_reg
     C01_gap_thresholds_default npX_rankGap alg (by rcases halg with rfl | rfl <;> decide) a ha
 
 end facade
